@@ -87,6 +87,14 @@ inductive Use
   | unmodelled                    -- a value of a type the use-site model does not read (numbers as file names …)
 deriving Repr, DecidableEq
 
+/-- is the interval value inside the alphabet the model's `float()` reads — plain decimals: ASCII digits, one sign, one
+    ".", ASCII blanks?  Python's `float()` also reads exponents (`1e1`), `inf` / `nan`, `_` separators and non-ASCII digits
+    (`١٠`): such texts are OUTSIDE the model (`Use.unmodelled`, nothing claimed), not "fails". -/
+def intervalTextModelled : CVal → Bool
+  | .str s => s.toList.all (fun c => isDigit c || c == '+' || c == '-' || c == '.' || c == ' ' || c == '\t')
+  | .float r => r.toList.all (fun c => isDigit c || c == '+' || c == '-' || c == '.' || c == ' ' || c == '\t')
+  | _ => true
+
 /-- what the consumer of setting `k` computes from its resolved value: GRPCService (SERVICE_URL: channel target,
     SERVICE_SECURE: `str2bool`), `logging.init` (LOGGING_CONF: falsy = built-in file), RepeatedTimer via LongPoll.start
     (POLL_TIMER: `float()`), `AuthProvider.get_provider` (SERVICE_AUTH_PROVIDER: `None`/"" = no provider),
@@ -105,7 +113,7 @@ def useOf : String → CVal → Option Use
       | _ => .unmodelled)
   | "POLL_TIMER", v => some (match pollInterval v with
       | some d => .seconds d
-      | none => .fails)
+      | none => if intervalTextModelled v then .fails else .unmodelled)
   | "SERVICE_AUTH_PROVIDER", v => some (match v with
       | .none => .unset
       | .str s => if s == "" then .unset else .text s
